@@ -1,5 +1,9 @@
 import Rtcm.Model.Message
 import Rtcm.Gen.Messages
+import Rtcm.Proofs.WFTable
+import Rtcm.Gen.SigTables
+import Rtcm.Proofs.NoPanicEnc
+import Rtcm.Proofs.MkFrame
 /-!
 # C09  Encoding is total and every emitted frame is well formed
 -/
@@ -18,5 +22,550 @@ theorem unknown_number_refused (cfg : Cfg) (tbl : List MsgRow) (glo : SigTable) 
     (toks : List Tok) (h : findRow tbl n = none) :
     (b.build cfg tbl glo (.typed n toks)).2 = .err .encodingNotSupported := by
   simp [Builder.build, number, h]
+
+/-! ### The body encoder's only panics are the model's token-shape rejections
+
+`encFrag` answers `panic "tokens…"` for a token stream that no Rust value corresponds to (wrong token
+kind, list longer than its capacity); the driver reports those as BAD-OP. Every other outcome of a
+well-formed layout (`WF.WFFrag`, Rtcm/Proofs/WFFrag.lean) on a byte buffer is `ok` or `err`, in both
+build profiles (`cfg` is universally quantified): no modelled Rust panic — `usize` underflow,
+oversized shift, `sig_id` shift overflow, zero-width cell mask — is reachable. -/
+
+open Rtcm.WF Rtcm.NoPanic Rtcm.Interp
+
+/-- every layout of the regenerated message table is well formed (kernel evaluation) -/
+theorem table_wfFrag : Gen.messageTable.all (fun r => WFFrag r.frag) = true := WF.table_wfFrag
+
+theorem wfFrag_of_mem {row : MsgRow} (h : row ∈ Gen.messageTable) : WFFrag row.frag = true :=
+  List.all_eq_true.mp table_wfFrag row h
+
+theorem encFrag_panic_only_tokens (cfg : Cfg) (glo : SigTable) (f : Frag) (hw : WFFrag f = true)
+    (ts : List Tok) (c : Cur) (hc : ∀ d ∈ c.data, d < 256) (w : String)
+    (h : encFrag cfg glo f ts c = .panic w) : w.startsWith "tokens" = true := by
+  have := encFrag_es cfg glo f hw ts c hc
+  rw [h] at this
+  exact this
+
+theorem encFrag_ok_ext (cfg : Cfg) (glo : SigTable) (f : Frag) (hw : WFFrag f = true)
+    (ts : List Tok) (c : Cur) (hc : ∀ d ∈ c.data, d < 256) (c' : Cur) (ts' : List Tok)
+    (h : encFrag cfg glo f ts c = .ok (c', ts')) :
+    (∀ d ∈ c'.data, d < 256) ∧ c'.data.length = c.data.length ∧ c.off ≤ c'.off ∧
+    (c.off ≤ 8 * c.data.length → c'.off ≤ 8 * c'.data.length) ∧
+    ∀ g, g < c.off → Bits.bitAt c'.data g = Bits.bitAt c.data g := by
+  have := encFrag_es cfg glo f hw ts c hc
+  rw [h] at this
+  exact ⟨this.good, this.len, this.mono, this.fit, this.keep⟩
+
+/-- the data the builder works on: cleared if it has run before -/
+def workData (b : Builder) : List Nat := if b.hasRun then clearData b.data else b.data
+
+theorem clearData_lt (d : List Nat) (h : ∀ x ∈ d, x < 256) : ∀ x ∈ clearData d, x < 256 := by
+  intro x hx
+  unfold clearData at hx
+  rcases List.mem_append.mp hx with hx | hx
+  · exact h x (List.mem_of_mem_take hx)
+  · have := List.eq_of_mem_replicate hx
+    omega
+
+theorem clearData_length (d : List Nat) (h : 1 ≤ d.length) : (clearData d).length = d.length := by
+  unfold clearData
+  simp only [List.length_append, List.length_take, List.length_replicate]
+  omega
+
+theorem workData_lt (b : Builder) (h : ∀ x ∈ b.data, x < 256) : ∀ x ∈ workData b, x < 256 := by
+  unfold workData
+  split
+  · exact clearData_lt _ h
+  · exact h
+
+theorem build_total (cfg : Cfg) (tbl : List MsgRow) (htbl : ∀ row ∈ tbl, WFFrag row.frag = true)
+    (glo : SigTable) (b : Builder) (hb : ∀ x ∈ b.data, x < 256) (m : Msg) (w : String)
+    (h : (b.build cfg tbl glo m).2 = .panic w) : w.startsWith "tokens" = true := by
+  have hwd := workData_lt b hb
+  unfold workData at hwd
+  unfold Builder.build at h
+  simp only [] at h
+  split at h
+  · next n toks _ hnum =>
+    have hwin : Good { data := ((if b.hasRun = true then clearData b.data else b.data).drop 3).take 1023, off := 0 } := by
+      intro x hx
+      exact hwd x (List.mem_of_mem_drop (List.mem_of_mem_take hx))
+    rcases put_ext cfg ⟨.u, 16⟩ _ n 12 (by decide) (by decide) (by decide) (by decide) hwin with
+      hp | ⟨d, o, hp, hext⟩
+    · simp only [] at hp
+      rw [hp] at h
+      cases h
+    · simp only [] at hp
+      rw [hp] at h
+      simp only [] at h
+      split at h
+      · next row hrow =>
+        have hes := encFrag_es cfg glo row.frag (htbl row (List.mem_of_find?_eq_some hrow)) toks
+          { data := d, off := o } hext.good
+        split at h
+        · next c rest henc =>
+          split at h
+          · cases h
+            show TokPanic _
+            unfold TokPanic
+            decide +kernel
+          · cases h
+        · cases h
+        · next q hq =>
+          cases h
+          rw [hq] at hes
+          exact hes
+      · cases h
+  · cases h
+
+
+/-! ### The builder: invariant, totality of a session, well-formed frames -/
+
+/-- builder invariant: 1029 bytes, first is the preamble -/
+structure BInv (b : Builder) : Prop where
+  len : b.data.length = 1029
+  bytes : ∀ x ∈ b.data, x < 256
+  head : b.data.getD 0 0 = 0xd3
+
+theorem binv_new : BInv Builder.new := by
+  refine ⟨?_, ?_, ?_⟩
+  · show (0xd3 :: List.replicate 1028 0).length = 1029
+    rw [List.length_cons, List.length_replicate]
+  · intro x hx
+    have hx' : x ∈ 0xd3 :: List.replicate 1028 0 := hx
+    rcases List.mem_cons.mp hx' with rfl | hx'
+    · decide
+    · have := List.eq_of_mem_replicate hx'; omega
+  · rfl
+
+theorem take_set3 (l : List Nat) (k a b c : Nat) (h : k + 3 ≤ l.length) :
+    (((l.set k a).set (k + 1) b).set (k + 2) c).take (k + 3) = l.take k ++ [a, b, c] := by
+  induction k generalizing l with
+  | zero =>
+    match l, h with
+    | x :: y :: z :: tl, _ => simp
+  | succ k ih =>
+    match l, h with
+    | x :: tl, h =>
+      simp only [List.length_cons] at h
+      have := ih tl (by omega)
+      simp only [List.set_cons_succ, List.take_succ_cons, List.cons_append]
+      exact congrArg (x :: ·) this
+
+/-- the frame the builder assembles around `L` payload bytes `P` -/
+def frameOf (L : Nat) (P : List Nat) : List Nat :=
+  let hdr := [0xd3, (L >>> 8) % 256, L % 256]
+  let crc := crc24q ((hdr ++ P).map UInt8.ofNat)
+  hdr ++ P ++ [(crc >>> 16) % 256, (crc >>> 8) % 256, crc % 256]
+
+theorem assemble (x1 x2 : Nat) (tl pay : List Nat) (L : Nat) (htl : tl.length = 1026)
+    (hpay : pay.length = 1023) (hL : L ≤ 1023) :
+    let data := 0xd3 :: x1 :: x2 :: tl
+    let d1 := data.take 3 ++ pay ++ data.drop 1026
+    let d2 := (d1.set 1 ((L >>> 8) % 256)).set 2 (L % 256)
+    let crc := crc24q ((d2.take (L + 3)).map UInt8.ofNat)
+    let d3 := ((d2.set (L + 3) ((crc >>> 16) % 256)).set (L + 4) ((crc >>> 8) % 256)).set (L + 5) (crc % 256)
+    d3.take (L + 6) = frameOf L (pay.take L) ∧ d3.length = 1029 ∧ d3.getD 0 0 = 0xd3 ∧
+      ((∀ x ∈ pay, x < 256) → (∀ x ∈ tl, x < 256) → ∀ x ∈ d3, x < 256) := by
+  intro data d1 d2 crc d3
+  have e1 : d1 = 0xd3 :: x1 :: x2 :: (pay ++ tl.drop 1023) := by
+    simp [d1, data]
+  have e2 : d2 = 0xd3 :: (L >>> 8) % 256 :: L % 256 :: (pay ++ tl.drop 1023) := by
+    simp [d2, e1]
+  have e2l : d2.length = 1029 := by
+    rw [e2]; simp [hpay, htl]
+  have e3 : d2.take (L + 3) = [0xd3, (L >>> 8) % 256, L % 256] ++ pay.take L := by
+    rw [e2]
+    simp only [List.take_succ_cons, List.cons_append, List.nil_append]
+    rw [List.take_append_of_le_length (by omega)]
+  have e4 : d3.take (L + 6) = d2.take (L + 3) ++ [(crc >>> 16) % 256, (crc >>> 8) % 256, crc % 256] :=
+    take_set3 d2 (L + 3) _ _ _ (by omega)
+  refine ⟨?_, ?_, ?_, ?_⟩
+  · rw [e4]
+    unfold frameOf
+    simp only [crc, e3]
+  · simp [d3, e2l]
+  · simp only [d3, List.getD_eq_getElem?_getD]
+    rw [List.getElem?_set_ne (by omega), List.getElem?_set_ne (by omega), List.getElem?_set_ne (by omega), e2]
+    rfl
+  · intro hp ht x hx
+    have h2 : ∀ y ∈ d2, y < 256 := by
+      intro y hy
+      rw [e2] at hy
+      simp only [List.mem_cons, List.mem_append] at hy
+      rcases hy with rfl | rfl | rfl | hy | hy
+      · decide
+      · exact Nat.mod_lt _ (by decide)
+      · exact Nat.mod_lt _ (by decide)
+      · exact hp y hy
+      · exact ht y (List.mem_of_mem_drop hy)
+    have hset : ∀ (l : List Nat) (i v : Nat), (∀ y ∈ l, y < 256) → v < 256 → ∀ y ∈ l.set i v, y < 256 := by
+      intro l i v hl hv y hy
+      rcases List.mem_or_eq_of_mem_set hy with h | h
+      · exact hl y h
+      · omega
+    exact hset _ _ _ (hset _ _ _ (hset _ _ _ h2 (Nat.mod_lt _ (by decide))) (Nat.mod_lt _ (by decide)))
+      (Nat.mod_lt _ (by decide)) x hx
+
+theorem frameOf_spec (L : Nat) (P : List Nat) (hP : P.length = L) (hL2 : 2 ≤ L) (hL : L ≤ 1023) :
+    (frameOf L P).length = L + 6 ∧ (frameOf L P).getD 0 0 = 0xd3 ∧
+    (frameOf L P).getD 1 0 &&& 0xFC = 0 ∧
+    (((frameOf L P).getD 1 0 &&& 3) <<< 8 ||| (frameOf L P).getD 2 0) = L ∧
+    (frameOf L P).map UInt8.ofNat = mkFrame 0 (P.map UInt8.ofNat) := by
+  have hs : L >>> 8 < 4 := by
+    rw [Nat.shiftRight_eq_div_pow]
+    have : (2 : Nat) ^ 8 = 256 := by decide
+    omega
+  have hm : (L >>> 8) % 256 = L >>> 8 := Nat.mod_eq_of_lt (by omega)
+  refine ⟨?_, ?_, ?_, ?_, ?_⟩
+  · simp [frameOf, hP]
+  · simp [frameOf]
+  · have e : (frameOf L P).getD 1 0 = (L >>> 8) % 256 := by simp [frameOf]
+    rw [e, hm]
+    have : ∀ x, x < 4 → x &&& 0xFC = 0 := by decide
+    exact this _ hs
+  · have e1 : (frameOf L P).getD 1 0 = (L >>> 8) % 256 := by simp [frameOf]
+    have e2 : (frameOf L P).getD 2 0 = L % 256 := by simp [frameOf]
+    rw [e1, e2]
+    have := header_len 0 L (by omega)
+    simpa using this
+  · unfold frameOf mkFrame frameHeader crcBytes
+    simp only [List.map_append, List.map_cons, List.map_nil, List.length_map, hP]
+    have e0 : (0 % 64) <<< 2 ||| L >>> 8 = L >>> 8 := by simp
+    rw [e0, hm]
+    simp
+
+theorem clearData_head (d : List Nat) (h : 1 ≤ d.length) : (clearData d).getD 0 0 = d.getD 0 0 := by
+  match d, h with
+  | x :: tl, _ => simp [clearData]
+
+theorem workData_inv (b : Builder) (hb : BInv b) :
+    (workData b).length = 1029 ∧ (∀ x ∈ workData b, x < 256) ∧ (workData b).getD 0 0 = 0xd3 := by
+  refine ⟨?_, workData_lt b hb.bytes, ?_⟩
+  · unfold workData
+    split
+    · rw [clearData_length _ (by rw [hb.len]; omega), hb.len]
+    · exact hb.len
+  · unfold workData
+    split
+    · rw [clearData_head _ (by rw [hb.len]; omega), hb.head]
+    · exact hb.head
+
+theorem data_shape (data : List Nat) (hl : data.length = 1029) (hh : data.getD 0 0 = 0xd3) :
+    ∃ x1 x2 tl, data = 0xd3 :: x1 :: x2 :: tl ∧ tl.length = 1026 := by
+  match data, hl, hh with
+  | x0 :: x1 :: x2 :: tl, hl, hh =>
+    simp only [List.getD_cons_zero] at hh
+    subst hh
+    exact ⟨x1, x2, tl, rfl, by simpa using hl⟩
+
+open Rtcm.Bits in
+/-- the two bytes that carry a 12-bit number at the start of a buffer -/
+theorem number_of_bits (n : Nat) (hn : n < 4096) (data : List Nat) (h0 : data.getD 0 0 < 256)
+    (h1 : data.getD 1 0 < 256)
+    (hbits : ∀ g, g < 12 → bitAt data g = (n % 2 ^ 12).testBit (11 - g)) :
+    (data.getD 0 0 <<< 4) ||| (data.getD 1 0 >>> 4) = n := by
+  apply Nat.eq_of_testBit_eq
+  intro i
+  simp only [Nat.testBit_or, Nat.testBit_shiftLeft, Nat.testBit_shiftRight]
+  have hmod : n % 2 ^ 12 = n := Nat.mod_eq_of_lt (by simpa using hn)
+  rw [hmod] at hbits
+  by_cases h4 : i < 4
+  · have := hbits (11 - i) (by omega)
+    unfold bitAt at this
+    have e1 : (11 - i) / 8 = 1 := by omega
+    have e2 : 7 - (11 - i) % 8 = 4 + i := by omega
+    have e3 : 11 - (11 - i) = i := by omega
+    rw [e1, e2, e3] at this
+    have h5 : ¬ (4 ≤ i) := by omega
+    simp only [ge_iff_le, h5, decide_false, Bool.false_and, Bool.false_or]
+    exact this
+  · have h5 : 4 ≤ i := by omega
+    have hz : (data.getD 1 0).testBit (4 + i) = false := testBit_false_of_lt_256 h1 (by omega)
+    simp only [ge_iff_le, h5, decide_true, Bool.true_and, hz, Bool.or_false]
+    by_cases h12 : i < 12
+    · have := hbits (11 - i) (by omega)
+      unfold bitAt at this
+      have e1 : (11 - i) / 8 = 0 := by omega
+      have e2 : 7 - (11 - i) % 8 = i - 4 := by omega
+      have e3 : 11 - (11 - i) = i := by omega
+      rw [e1, e2, e3] at this
+      exact this
+    · rw [testBit_false_of_lt_256 h0 (by omega)]
+      symm
+      apply Nat.testBit_lt_two_pow
+      calc n < 2 ^ 12 := by simpa using hn
+        _ ≤ 2 ^ i := Nat.pow_le_pow_right (by decide) (by omega)
+
+
+theorem byteAt_map_ofNat (P : List Nat) (i : Nat) (hi : i < P.length) (hP : ∀ x ∈ P, x < 256) :
+    byteAt (P.map UInt8.ofNat) i = P.getD i 0 := by
+  unfold byteAt
+  simp only [List.getD_eq_getElem?_getD, List.getElem?_map, List.getElem?_eq_getElem hi, Option.map_some,
+    Option.getD_some]
+  have := hP P[i] (List.getElem_mem hi)
+  simp [UInt8.toNat_ofNat']
+  omega
+
+/-- shape of every successfully built frame -/
+theorem build_ok_frameOf (cfg : Cfg) (tbl : List MsgRow) (htbl : ∀ row ∈ tbl, WFFrag row.frag = true)
+    (glo : SigTable) (b : Builder) (hb : BInv b) (m : Msg) (fr : List Nat)
+    (h : (b.build cfg tbl glo m).2 = .ok fr) :
+    ∃ L P, 2 ≤ L ∧ L ≤ 1023 ∧ P.length = L ∧ (∀ x ∈ P, x < 256) ∧ fr = frameOf L P ∧
+      ∀ n toks, m = .typed n toks → n < 4096 → (P.getD 0 0 <<< 4) ||| (P.getD 1 0 >>> 4) = n := by
+  obtain ⟨wl, wb, wh⟩ := workData_inv b hb
+  unfold workData at wl wb wh
+  unfold Builder.build at h
+  simp only [] at h
+  generalize (if b.hasRun = true then clearData b.data else b.data) = data at h wl wb wh
+  obtain ⟨x1, x2, tl, rfl, htl⟩ := data_shape data wl wh
+  split at h
+  · next n toks _ hnum =>
+    have hwin : Good { data := ((0xd3 :: x1 :: x2 :: tl).drop 3).take 1023, off := 0 } := by
+      intro x hx
+      exact wb x (List.mem_of_mem_drop (List.mem_of_mem_take hx))
+    have hwl : (((0xd3 :: x1 :: x2 :: tl).drop 3).take 1023).length = 1023 := by
+      simp [htl]
+    rcases put_ext cfg ⟨.u, 16⟩ _ n 12 (by decide) (by decide) (by decide) (by decide) hwin with
+      hp | ⟨d, o, hp, hext⟩
+    · simp only [] at hp
+      rw [hp] at h
+      cases h
+    · simp only [] at hp
+      have ho : o = 12 := by
+        rcases put_total cfg ⟨.u, 16⟩ (((0xd3 :: x1 :: x2 :: tl).drop 3).take 1023) 0 n 12 (by decide)
+          (by decide) (by decide) (by decide) hwin with hq | ⟨d', hq, -⟩
+        · rw [hq] at hp; cases hp
+        · rw [hq] at hp; cases hp; rfl
+      subst ho
+      rw [hp] at h
+      simp only [] at h
+      split at h
+      · next row hrow =>
+        have hes := encFrag_es cfg glo row.frag (htbl row (List.mem_of_find?_eq_some hrow)) toks
+          { data := d, off := 12 } hext.good
+        split at h
+        · next c rest henc =>
+          rw [henc] at hes
+          have hE : Ext { data := d, off := 12 } c := hes
+          have hdl : d.length = 1023 := by have := hext.len; simp only [] at this; rw [this, hwl]
+          have hcl : c.data.length = 1023 := by have := hE.len; simp only [] at this; rw [this, hdl]
+          have hlo : 12 ≤ c.off := hE.mono
+          have hhi : c.off ≤ 8184 := by
+            have := hE.fit (by simp only []; omega)
+            omega
+          split at h
+          · cases h
+          · injection h with h
+            have A := assemble x1 x2 tl c.data ((c.off - 1) / 8 + 1) htl hcl (by omega)
+            refine ⟨(c.off - 1) / 8 + 1, c.data.take ((c.off - 1) / 8 + 1), by omega, by omega, ?_, ?_, ?_, ?_⟩
+            · rw [List.length_take]; omega
+            · intro x hx; exact hE.good x (List.mem_of_mem_take hx)
+            · rw [← h]; exact A.1
+            · intro n' toks' hm hn'
+              injection hm with hn _
+              subst hn
+              have g0 : ∀ j, j < 2 → (c.data.take ((c.off - 1) / 8 + 1)).getD j 0 = c.data.getD j 0 := by
+                intro j hj
+                simp only [List.getD_eq_getElem?_getD, List.getElem?_take]
+                rw [if_pos (by omega)]
+              have gl : ∀ j, c.data.getD j 0 < 256 := by
+                intro j
+                rw [List.getD_eq_getElem?_getD]
+                cases hj : c.data[j]? with
+                | none => simp
+                | some x => simpa using hE.good x (List.mem_of_getElem? hj)
+              rw [g0 0 (by omega), g0 1 (by omega)]
+              apply number_of_bits n hn' c.data (gl 0) (gl 1)
+              intro g hg
+              have k := hE.keep g hg
+              simp only [] at k
+              rw [k, C07.put_bits cfg ⟨.u, 16⟩ _ 0 n 12 (by decide) (by decide) (by decide) (by decide)
+                hwin (by rw [hwl]; omega) (by simp only []; omega) d 12 hp g]
+              rw [if_pos ⟨Nat.zero_le _, by omega⟩]
+              unfold Bits.wireBit Bits.wireValue
+              simp
+        · cases h
+        · cases h
+      · cases h
+  · cases h
+
+theorem frameOf_bytes (L : Nat) (P : List Nat) (hP : ∀ x ∈ P, x < 256) : ∀ x ∈ frameOf L P, x < 256 := by
+  intro x hx
+  unfold frameOf at hx
+  simp only [List.mem_append, List.mem_cons, List.not_mem_nil, or_false] at hx
+  rcases hx with (((rfl | rfl | rfl) | hx) | (rfl | rfl | rfl))
+  · decide
+  · exact Nat.mod_lt _ (by decide)
+  · exact Nat.mod_lt _ (by decide)
+  · exact hP x hx
+  · exact Nat.mod_lt _ (by decide)
+  · exact Nat.mod_lt _ (by decide)
+  · exact Nat.mod_lt _ (by decide)
+
+/-- C09, second half: every frame the builder returns is well formed and passes the specification's
+frame check (preamble, reserved bits zero, length field = payload length, CRC-24Q). -/
+theorem build_wellformed (cfg : Cfg) (tbl : List MsgRow) (htbl : ∀ row ∈ tbl, WFFrag row.frag = true)
+    (glo : SigTable) (b : Builder) (hb : BInv b) (m : Msg) (fr : List Nat)
+    (h : (b.build cfg tbl glo m).2 = .ok fr) :
+    8 ≤ fr.length ∧ fr.length ≤ 1029 ∧ (∀ x ∈ fr, x < 256) ∧
+    fr.getD 0 0 = 0xd3 ∧ fr.getD 1 0 &&& 0xFC = 0 ∧
+    ((fr.getD 1 0 &&& 3) <<< 8 ||| fr.getD 2 0) = fr.length - 6 ∧
+    ∃ f, frameNew (fr.map UInt8.ofNat) = .ok f ∧ f.frameData = fr.map UInt8.ofNat ∧
+      f.data.length = fr.length - 6 ∧ f.number.isSome = true ∧
+      ∀ n toks, m = .typed n toks → n < 4096 → f.number = some n := by
+  obtain ⟨L, P, hL2, hL, hP, hPb, rfl, hnum⟩ := build_ok_frameOf cfg tbl htbl glo b hb m fr h
+  obtain ⟨s1, s2, s3, s4, s5⟩ := frameOf_spec L P hP hL2 hL
+  refine ⟨by omega, by omega, frameOf_bytes L P hPb, s2, s3, by rw [s4, s1]; omega, ?_⟩
+  have hpl : (P.map UInt8.ofNat).length = L := by simp [hP]
+  have hf := frameNew_mkFrame 0 (P.map UInt8.ofNat) [] (by omega)
+  rw [List.append_nil] at hf
+  refine ⟨_, by rw [s5]; exact hf, ?_, ?_, ?_, ?_⟩
+  · rw [s5]; rfl
+  · show (P.map UInt8.ofNat).length = _
+    rw [hpl, s1]; omega
+  · show (if 2 ≤ (P.map UInt8.ofNat).length then _ else none : Option Nat).isSome = true
+    rw [if_pos (by omega)]; rfl
+  · intro n toks hm hn
+    show (if 2 ≤ (P.map UInt8.ofNat).length then _ else none : Option Nat) = some n
+    rw [if_pos (by omega), byteAt_map_ofNat P 0 (by omega) hPb, byteAt_map_ofNat P 1 (by omega) hPb,
+      hnum n toks hm hn]
+
+theorem putW_inv (x1 x2 : Nat) (tl w : List Nat) (htl : tl.length = 1026) (hw : w.length = 1023)
+    (hwb : ∀ x ∈ w, x < 256) (hb : ∀ x ∈ (0xd3 :: x1 :: x2 :: tl), x < 256) (r : Bool) :
+    BInv { data := (0xd3 :: x1 :: x2 :: tl).take 3 ++ w ++ (0xd3 :: x1 :: x2 :: tl).drop 1026, hasRun := r } := by
+  refine ⟨?_, ?_, ?_⟩
+  · simp [hw, htl]
+  · intro x hx
+    simp only [List.mem_append] at hx
+    rcases hx with (hx | hx) | hx
+    · exact hb x (List.mem_of_mem_take hx)
+    · exact hwb x hx
+    · exact hb x (List.mem_of_mem_drop hx)
+  · simp
+
+/-- the builder invariant is preserved by every call, whatever its outcome -/
+theorem build_inv (cfg : Cfg) (tbl : List MsgRow) (htbl : ∀ row ∈ tbl, WFFrag row.frag = true)
+    (glo : SigTable) (b : Builder) (hb : BInv b) (m : Msg) : BInv (b.build cfg tbl glo m).1 := by
+  obtain ⟨wl, wb, wh⟩ := workData_inv b hb
+  unfold workData at wl wb wh
+  unfold Builder.build
+  simp only []
+  generalize (if b.hasRun = true then clearData b.data else b.data) = data at wl wb wh
+  have hdef : BInv { data := data, hasRun := true } := ⟨wl, wb, wh⟩
+  obtain ⟨x1, x2, tl, rfl, htl⟩ := data_shape data wl wh
+  split
+  · next n toks _ hnum =>
+    have hwin : Good { data := ((0xd3 :: x1 :: x2 :: tl).drop 3).take 1023, off := 0 } := by
+      intro x hx
+      exact wb x (List.mem_of_mem_drop (List.mem_of_mem_take hx))
+    have hwl : (((0xd3 :: x1 :: x2 :: tl).drop 3).take 1023).length = 1023 := by
+      simp [htl]
+    rcases put_ext cfg ⟨.u, 16⟩ _ n 12 (by decide) (by decide) (by decide) (by decide) hwin with
+      hp | ⟨d, o, hp, hext⟩
+    · simp only [] at hp
+      rw [hp]
+      exact hdef
+    · simp only [] at hp
+      rw [hp]
+      simp only []
+      have hdl : d.length = 1023 := by have := hext.len; simp only [] at this; rw [this, hwl]
+      have hdb : ∀ x ∈ d, x < 256 := hext.good
+      split
+      · next row hrow =>
+        have hes := encFrag_es cfg glo row.frag (htbl row (List.mem_of_find?_eq_some hrow)) toks
+          { data := d, off := o } hext.good
+        split
+        · next c rest henc =>
+          rw [henc] at hes
+          have hE : Ext { data := d, off := o } c := hes
+          have hcl : c.data.length = 1023 := by have := hE.len; simp only [] at this; rw [this, hdl]
+          split
+          · exact putW_inv x1 x2 tl c.data htl hcl hE.good wb true
+          · by_cases hL : (c.off - 1) / 8 + 1 ≤ 1023
+            · have A := assemble x1 x2 tl c.data ((c.off - 1) / 8 + 1) htl hcl hL
+              exact ⟨A.2.1, A.2.2.2 hE.good (fun x hx => wb x (by simp [hx])), A.2.2.1⟩
+            · exfalso
+              have h1 := hE.fit
+              have h2 := hext.fit
+              simp only [] at h1 h2
+              omega
+        · exact putW_inv x1 x2 tl d htl hdl hdb wb true
+        · exact putW_inv x1 x2 tl d htl hdl hdb wb true
+      · exact hdef
+  · exact hdef
+
+/-- a whole session on one builder: no call ever ends in a modelled Rust panic -/
+theorem buildSeq_total (cfg : Cfg) (tbl : List MsgRow) (htbl : ∀ row ∈ tbl, WFFrag row.frag = true)
+    (glo : SigTable) (b : Builder) (hb : BInv b) (ms : List Msg) :
+    ∀ r ∈ buildSeq cfg tbl glo b ms, ∀ w, r = .panic w → w.startsWith "tokens" = true := by
+  induction ms generalizing b with
+  | nil => intro r hr; cases hr
+  | cons m ms ih =>
+    intro r hr w hw
+    unfold buildSeq at hr
+    simp only [List.mem_cons] at hr
+    rcases hr with rfl | hr
+    · exact build_total cfg tbl htbl glo b hb.bytes m w hw
+    · exact ih _ (build_inv cfg tbl htbl glo b hb m) r hr w hw
+
+
+/-! ### Instantiation for the regenerated tables -/
+
+/-- Headline (first half of C09): with the regenerated message table and GLONASS table, from any
+builder state reachable from `Builder.new` (`BInv`: 1029 bytes, preamble first — `binv_new`,
+`build_inv`), in both build profiles, `build_message` never ends in a modelled Rust panic; the only
+`panic` outcomes of the model are its own rejections of token streams no Rust value corresponds to. -/
+theorem build_total_gen (cfg : Cfg) (b : Builder) (hb : BInv b) (m : Msg) (w : String)
+    (h : (b.build cfg Gen.messageTable Gen.sigTable_glo m).2 = .panic w) :
+    w.startsWith "tokens" = true :=
+  build_total cfg Gen.messageTable (fun _ h => wfFrag_of_mem h) Gen.sigTable_glo b hb.bytes m w h
+
+/-- the same for a whole session on one builder -/
+theorem buildSeq_total_gen (cfg : Cfg) (ms : List Msg) :
+    ∀ r ∈ buildSeq cfg Gen.messageTable Gen.sigTable_glo Builder.new ms, ∀ w, r = .panic w →
+      w.startsWith "tokens" = true :=
+  buildSeq_total cfg Gen.messageTable (fun _ h => wfFrag_of_mem h) Gen.sigTable_glo Builder.new
+    binv_new ms
+
+/-- Headline (second half of C09): every frame `build_message` returns is 8..=1029 bytes of which the
+first is 0xD3, the six reserved bits are zero, the 10-bit length field is the frame length minus 6,
+and the frame passes the specification's frame check `frameNew` (CRC-24Q included) as exactly that
+frame, with a message number present. -/
+theorem build_wellformed_gen (cfg : Cfg) (b : Builder) (hb : BInv b) (m : Msg) (fr : List Nat)
+    (h : (b.build cfg Gen.messageTable Gen.sigTable_glo m).2 = .ok fr) :
+    8 ≤ fr.length ∧ fr.length ≤ 1029 ∧ (∀ x ∈ fr, x < 256) ∧
+    fr.getD 0 0 = 0xd3 ∧ fr.getD 1 0 &&& 0xFC = 0 ∧
+    ((fr.getD 1 0 &&& 3) <<< 8 ||| fr.getD 2 0) = fr.length - 6 ∧
+    ∃ f, frameNew (fr.map UInt8.ofNat) = .ok f ∧ f.frameData = fr.map UInt8.ofNat ∧
+      f.data.length = fr.length - 6 ∧ f.number.isSome = true ∧
+      ∀ n toks, m = .typed n toks → n < 4096 → f.number = some n :=
+  build_wellformed cfg Gen.messageTable (fun _ h => wfFrag_of_mem h) Gen.sigTable_glo b hb m fr h
+
+/-- message numbers of the regenerated table fit the 12-bit number field -/
+theorem gen_numbers_lt : Gen.messageTable.all (fun r => decide (r.number < 4096)) = true := by
+  decide +kernel
+
+/-- the frame of a typed message carries that message's number -/
+theorem build_number_gen (cfg : Cfg) (b : Builder) (hb : BInv b) (n : Nat) (toks : List Tok)
+    (fr : List Nat)
+    (h : (b.build cfg Gen.messageTable Gen.sigTable_glo (.typed n toks)).2 = .ok fr) :
+    ∃ f, frameNew (fr.map UInt8.ofNat) = .ok f ∧ f.number = some n := by
+  obtain ⟨-, -, -, -, -, -, f, hf, -, -, -, hnum⟩ := build_wellformed_gen cfg b hb _ fr h
+  refine ⟨f, hf, hnum n toks rfl ?_⟩
+  cases hrow : findRow Gen.messageTable n with
+  | none =>
+    rw [unknown_number_refused cfg _ _ b n toks hrow] at h
+    cases h
+  | some row =>
+    have hmem : row ∈ Gen.messageTable := List.mem_of_find?_eq_some hrow
+    have hnum : (row.number == n) = true := by
+      unfold findRow at hrow
+      have := List.find?_some hrow
+      exact this
+    have hlt := List.all_eq_true.mp gen_numbers_lt row hmem
+    simp only [decide_eq_true_eq] at hlt
+    have : row.number = n := by simpa using hnum
+    omega
 
 end Rtcm.C09
